@@ -296,7 +296,7 @@ def main(chk):
                 'indices incl. 1 and 2 (logarithmic cases) against closed forms and quadrature; broadband averages of constant models; the physical-range guard. '
                 'non-trivial = ≥ 3 components with distinct angles')
     chk.assumptions = TRUSTED
-    chk.lean(['IxpeVerif.Props.C20', 'IxpeVerif.Props.Audit.C20'], GEN)
+    chk.lean(['IxpeVerif.Props.C20', 'IxpeVerif.Props.Audit.C20'], GEN + ['harmonic_addition'])
     corr_gen.run(chk, GEN, n=100 if chk.tier == 'quick' else 2000, tag='C20', rtol=1e-11)
     explore(chk)
     return chk.finish(level='proof', trusted=TRUSTED, search=lambda k: explore(chk, 5))
